@@ -63,15 +63,19 @@ def run_live(ctx, binary, data, n):
         if os.path.exists(fn):
             fbytes, has = open(fn, "rb").read(), True
             break
-    return dict(pre_len=0, pre_kept=True, in_len=len(data), in_sha=sha(data), out_len=len(out), out_sha=sha(out), file_len=len(fbytes), file_sha=sha(fbytes), has_file=has,
+    return dict(rec_broken=False, pre_len=0, pre_kept=True, in_len=len(data), in_sha=sha(data), out_len=len(out), out_sha=sha(out), file_len=len(fbytes), file_sha=sha(fbytes), has_file=has,
                 ret=ret, small=False, pause=False, chunk=len(data), midnight=day1 != day2, live=True, live_complete=while_open == data,
                 live_len=len(while_open), **{"in": [], "out": [], "file": []})
 
 
-def run_logger(ctx, binary, data, seed, chunk, pause_ms, n, paced=False, pre=b"", stall_out=0.0):
+def run_logger(ctx, binary, data, seed, chunk, pause_ms, n, paced=False, pre=b"", stall_out=0.0, rec_broken=False):
     d = ctx.path("run%d" % n)
     os.makedirs(d)
     logdir = os.path.join(d, "rec")
+    if rec_broken:
+        # the filestore of the record is full: every write to the day's file fails with ENOSPC (the name is a link to /dev/full)
+        os.makedirs(logdir)
+        os.symlink("/dev/full", os.path.join(logdir, "rtcmlogger.%s.rtcm" % datetime.date.today().isoformat()))
     if pre:
         # the program is restarted on the same day: the day's record already exists and is continued
         os.makedirs(logdir)
@@ -135,14 +139,16 @@ def run_logger(ctx, binary, data, seed, chunk, pause_ms, n, paced=False, pre=b""
     fbytes, has = b"", False
     for day in (day1, day2):
         fn = os.path.join(logdir, "rtcmlogger.%s.rtcm" % day)
-        if os.path.exists(fn):
+        if os.path.exists(fn) and not os.path.islink(fn):      # (never read the /dev/full link: it is an endless source)
             fbytes, has = open(fn, "rb").read(), True
             break
+    if rec_broken:
+        fbytes, has = data, True          # nothing can be read back from /dev/full: only the pass-through and the exit are judged
     pre_kept = fbytes[:len(pre)] == pre
     if pre_kept:
         fbytes = fbytes[len(pre):]
     small = len(data) <= 1500
-    ev = dict(pre_len=len(pre), pre_kept=pre_kept, in_len=len(data), in_sha=sha(data), out_len=len(out), out_sha=sha(out), file_len=len(fbytes), file_sha=sha(fbytes), has_file=has,
+    ev = dict(rec_broken=rec_broken, pre_len=len(pre), pre_kept=pre_kept, in_len=len(data), in_sha=sha(data), out_len=len(out), out_sha=sha(out), file_len=len(fbytes), file_sha=sha(fbytes), has_file=has,
               ret=ret, small=small, pause=bool(pause_ms), chunk=chunk, midnight=day1 != day2, live=False, live_complete=True, live_len=len(out),
               **{"in": list(data) if small else [], "out": list(out) if small else [], "file": list(fbytes) if small else []})
     return ev
@@ -189,6 +195,13 @@ def run(ctx, replay):
         ev = run_logger(ctx, binary, data, rng.getrandbits(30), max(1, nin), 0, 900 + k, pre=pre)
         if not ev["midnight"]:
             events.append(ev)
+    # recording fails (filestore full) from the first block on: the pass-through carries on and the program ends
+    for k, (size, chunk) in enumerate([(5000, 1000), (30000, 8096)] + ([(100000, 4000)] if ctx.thorough() else [])):
+        data = bytes(rng.getrandbits(8) for _ in range(size))
+        ev = run_logger(ctx, binary, data, rng.getrandbits(30), chunk, 0, 970 + k, paced=True, rec_broken=True)
+        ev["chunk"] = -4
+        if not ev["midnight"]:
+            events.append(ev)
     # the consumer of stdout is stalled until 3 s after the input has ended (more data than a pipe holds is in flight)
     for k, size in enumerate([150000] + ([400000, 70000] if ctx.thorough() else [])):
         r3 = random.Random(ctx.seed * 31 + size)
@@ -233,7 +246,7 @@ def run(ctx, replay):
         level="model_checking",
         rule="one case = (input bytes, chunking/timing of stdin, schedule) through the built rtcmlogger binary over OS pipes, exit awaited, record file read afterwards; sizes around "
              "the 8096-byte block (0, 1, 17, 8095, 8096, 8097, 3x8096+5, 12 MB; thorough: up to 40 MB), binary content; schedule: the Logger.tla counterexample forced with "
-             "VERIF_PAUSE_rec.write (recorder held before its write while the copy loop reaches EOF and main exits) free-running, restarts on the same day (the day's record file already holds an earlier run's bytes and must keep them in front of the new ones), a consumer of stdout that takes nothing until 3 s after the input has ended (150 kB in flight), and 'live' runs in which a burst (incl. exactly 1 and 2 blocks) is followed by silence on an open stdin and must appear on stdout within 8 s; non-trivial = non-empty input",
+             "VERIF_PAUSE_rec.write (recorder held before its write while the copy loop reaches EOF and main exits) free-running, restarts on the same day (the day's record file already holds an earlier run's bytes and must keep them in front of the new ones), a consumer of stdout that takes nothing until 3 s after the input has ended (150 kB in flight), a record file on a full filestore (every write fails with ENOSPC: the pass-through must carry on and the program end), and 'live' runs in which a burst (incl. exactly 1 and 2 blocks) is followed by silence on an open stdin and must appear on stdout within 8 s; non-trivial = non-empty input",
         assumptions=["equality is judged on length and SHA-1 for every run and byte by byte for inputs up to 1500 bytes",
                      "the pause only delays the recorder: on a correct implementation it merely slows the exit",
                      "runs during which the local date changed are dropped"],
